@@ -7,11 +7,23 @@ Model: the same `Sync` definitions as C02.  Every step (`Sync.onHeader` / `Sync.
 returns the atomic durable writes it issues, in order — per applied block `[saveBlock, updateState,
 setHeight]` (`block/sync.go` `trySyncNextBlock`: the block is saved **before** the state that says it was
 applied, /repo 99e45dc).  **Crash** = only a prefix of those writes reaches the disk
-(`Store.applyPrefix k ws`), the in-memory state and the caches are lost; **restart** = `Sync.start c image`
-with empty caches (`NewManager` raises the chain height to the state's height).  Compared with the real
-`SyncLoop` + `NewManager` at every write boundary by stream C05.
+(`Store.applyPrefix k ws`), the in-memory state and caches are lost; **restart** = `Sync.boot c image caches`:
+`NewManager` (`Sync.start`: raises the chain height to the state's height, loads the cache files) and then the
+start of `SyncLoop` (`Sync.loopStart`: applies what the loaded caches already allow, /repo 1fa5e4f).  Compared with
+the real `SyncLoop` + `NewManager` at every write boundary by stream C05.
 
-Why every boundary is harmless now: after `saveBlock` alone the new block sits *above* the recorded height —
+**Which caches after a crash.**  The in-memory caches are lost, but the cache *files* are whatever the last clean
+stop wrote — nothing (`C05_crash`: `caches = {}`) or **an older generation of the caches**
+(`C05_crash_stale_caches`: the caches of the node at any earlier point of the same run; `Reach.crashStale`: of any
+reachable node whose height is not above the recorded height).  Before /repo 1fa5e4f a node restarted on stale
+cache files could hold header and data of the next height in its caches and drop every re-delivery of them as
+already seen (`C05_stale_cache_witness`).
+
+**Which events.**  As in `Spec.C02`: `Ev` indexes the genuine parts of the chain; the theorems that conclude a
+height is reached (`C05_converges_after_crashes`, `C05_recovers_after_any_crash`) are for runs without junk P2P data
+items (see `Spec.C02.C02_converges_junk_fails`, recorded finding) and under `DistinctCommitments`.
+
+Why every boundary is harmless: after `saveBlock` alone the new block sits *above* the recorded height —
 the node restarts below it and applies that height again (the save is repeated); after `saveBlock,
 updateState` the state is one ahead of the stored chain height, `Sync.start` raises the height to the state's
 height, and the block of that height is there.
@@ -46,10 +58,11 @@ theorem diskOK_iff (d : Store) : DiskOK c ch d ↔
 
 /-! ## every crash point leaves a recoverable image -/
 
-/-- **The property as stated: every boundary between two durable writes.**  For every good chain, after any
-events and clean restarts, for every next event and **every** number `k` of its writes that reached the disk:
-the image satisfies `DiskOK`; the height it records lies between the chain height before the step and the one
-the step was about to reach (nothing acknowledged is lost, nothing is invented); `Sync.start` succeeds on it;
+/-- **The property as stated: every boundary between two durable writes** (caches lost).  For every good chain,
+after any events and clean restarts, for every next event and **every** number `k` of its writes that reached the
+disk: the image satisfies `DiskOK`; the height it records lies between the chain height before the step and the one
+the step was about to reach (nothing acknowledged is lost, nothing is invented); `Sync.boot` succeeds on it
+(`NewManager` and the start of the loop, which has nothing to do: `boot` = `start`);
 the restarted node reports exactly the recorded height, its state is the state after exactly that height,
 every height up to it holds the proposer's block (signed header, signature, transaction list, for a non-empty
 block the very same data), and the node satisfies the invariant of C02 again (with empty caches and no events
@@ -60,7 +73,8 @@ def C05_crash_full : Prop :=
     DiskOK c ch image ∧
     (runOps c ch ops).store.height ≤ recHeight c image ∧
     recHeight c image ≤ (deliver ch (runOps c ch ops) e).1.store.height ∧
-    ∃ n ws, Sync.start c image = some (n, ws) ∧ n.store.height = recHeight c image ∧
+    ∃ n ws, Sync.boot c image = some (n, ws) ∧ Sync.start c image = some (n, ws) ∧
+      n.store.height = recHeight c image ∧
       n.lastState.lastHeight = n.store.height ∧ n.lastState = stateAt c ch n.store.height ∧
       (∀ j, c.initialHeight ≤ j → j ≤ n.store.height →
         ∃ b sb, ch j = some b ∧ n.store.getBlock j = some sb ∧ sb.sh = b.sh ∧ sb.savedSig = b.sh.sig ∧
@@ -72,50 +86,93 @@ boundary after the state write was a counterexample; the proof is by the shape o
 `AppliedWrites`, and the three images inside one block application, `settled_step`.) -/
 theorem C05_crash : C05_crash_full := by
   intro c ch top ops e k g image
-  obtain ⟨_, b1, b2⟩ := crash_image_ok g (runOps_safe g ops) e k
-  obtain ⟨n, ws, a1, a2, a3, a4, a5⟩ := crash_restarts g (runOps_safe g ops) e k
-  exact ⟨a2, b1, b2, n, ws, a1, a3, a4, a5.safe.st, a5.safe.chain, a5⟩
+  obtain ⟨hd, b1, b2⟩ := crash_image_ok g (runOps_safe g ops) e k
+  obtain ⟨n, ws, a1, a2, a3, a4, a5⟩ := diskOK_boot_empty g hd
+  exact ⟨hd, b1, b2, n, ws, a1, a2, a3, a4, a5.safe.st, a5.safe.chain, a5⟩
+
+/-- **… and with the cache files of ANY earlier generation.**  For every run `ops₁ ++ ops₂` (the caches were last
+written by a clean stop after `ops₁` — any split), every next event and every crash point `k`: `Sync.boot` on the
+image **with the caches of the node after `ops₁`** succeeds; the node is alive at a height between the recorded
+height and … whatever those caches allowed; state, blocks and the safety invariant are as in `C05_crash`; nothing
+is applicable any more (the start of the loop applied it); a crash between the writes of *this* restart (its own
+and those of the blocks it applies) leaves a consistent image again; and under `DistinctCommitments` the full
+invariant of C02 holds (relative to the events delivered before the caches were written), so the node converges. -/
+theorem C05_crash_stale_caches (g : GoodChain c ch top) (ops₁ ops₂ : List Op) (e : Ev) (k : Nat) :
+    let gen := runOps c ch ops₁
+    let n₀ := runOps c ch (ops₁ ++ ops₂)
+    let image := n₀.store.applyPrefix k (deliver ch n₀ e).2
+    DiskOK c ch image ∧ gen.store.height ≤ recHeight c image ∧
+    ∃ n ws, Sync.boot c image gen = some (n, ws) ∧ n.alive = true ∧ recHeight c image ≤ n.store.height ∧
+      n.lastState.lastHeight = n.store.height ∧ n.lastState = stateAt c ch n.store.height ∧
+      (∀ j, c.initialHeight ≤ j → j ≤ n.store.height →
+        ∃ b sb, ch j = some b ∧ n.store.getBlock j = some sb ∧ sb.sh = b.sh ∧ sb.savedSig = b.sh.sig ∧
+          sb.data.txs = b.data.txs ∧ (b.data.txs ≠ [] → sb.data = b.data)) ∧
+      (∀ j, recHeight c image < j → j ≤ n.store.height → Delivered ch (evsOf ops₁) j) ∧
+      ¬ (n.store.height + 1 ∈ keysH n ∧ n.store.height + 1 ∈ keysD n) ∧
+      (∀ j, DiskOK c ch (image.applyPrefix j ws)) ∧
+      (DistinctCommitments ch → Inv c ch (recHeight c image) (evsOf ops₁) n) := by
+  intro gen n₀ image
+  obtain ⟨hd, b1, _⟩ := crash_image_ok g (runOps_safe g (ops₁ ++ ops₂)) e k
+  have hmono : gen.store.height ≤ n₀.store.height := by
+    show (runOps c ch ops₁).store.height ≤ (runOps c ch (ops₁ ++ ops₂)).store.height
+    unfold runOps; rw [runFrom_append]
+    exact (runFrom_safe g ops₂ (runOps_safe g ops₁) (runOps_quiet g ops₁)).2.2
+  have hle : gen.store.height ≤ recHeight c image := Nat.le_trans hmono b1
+  obtain ⟨n, ws, a1, a2, a3, a4, a5, a6⟩ := diskOK_boot g hd (runOps_safe g ops₁).caches
+  refine ⟨hd, hle, n, ws, a1, a4.alive, a2, a3, a4.st, a4.chain, a4.sound, a5, a6, fun dc => ?_⟩
+  obtain ⟨n', ws', c1, _, _, c4, _⟩ := diskOK_boot_inv g hd (runOps_inv g dc ops₁) hle
+  rw [a1] at c1; cases c1
+  exact c4
 
 /-! ## recurring crashes, and convergence after them -/
 
 /-- **Nesting.**  Every node reachable by genuine events, clean restarts and any number of crashes (each at
-**any** write boundary of any step, including steps of the re-application after an earlier crash, each
-followed by a restart on the image with empty caches) satisfies the safety invariant of C02: the loop is
-alive, every height up to the chain height holds the proposer's block, the state is the state after exactly
-the chain height. -/
+**any** write boundary of any step, including steps of the re-application after an earlier crash, each followed by
+a restart on the image with the caches lost **or with the cache files of an earlier generation**) satisfies the
+safety invariant of C02: the loop is alive, every height up to the chain height holds the proposer's block, the
+state is the state after exactly the chain height, and nothing is applicable. -/
 theorem C05_recurring_crashes (g : GoodChain c ch top) {n : FNode} (r : Reach c ch n) :
     n.alive = true ∧ n.store.height = n.lastState.lastHeight ∧ n.lastState = stateAt c ch n.store.height ∧
     DiskOK c ch n.store ∧
-    ∀ k, c.initialHeight ≤ k → k ≤ n.store.height →
-      ∃ b sb, ch k = some b ∧ n.store.getBlock k = some sb ∧ sb.sh = b.sh ∧ sb.data.txs = b.data.txs := by
-  obtain ⟨evs, hs⟩ := reach_safe g r
-  refine ⟨hs.alive, hs.hs g, hs.st, (hs.diskOK g).1, fun k h1 h2 => ?_⟩
+    (∀ k, c.initialHeight ≤ k → k ≤ n.store.height →
+      ∃ b sb, ch k = some b ∧ n.store.getBlock k = some sb ∧ sb.sh = b.sh ∧ sb.data.txs = b.data.txs) ∧
+    ¬ (n.store.height + 1 ∈ keysH n ∧ n.store.height + 1 ∈ keysD n) := by
+  obtain ⟨evs, hs, hq⟩ := reach_safe g r
+  refine ⟨hs.alive, hs.hs g, hs.st, (hs.diskOK g).1, fun k h1 h2 => ?_, hq⟩
   obtain ⟨b, sb, x1, x2, x3, _, x4, _⟩ := hs.chain k h1 h2
   exact ⟨b, sb, x1, x2, x3, x4⟩
 
-/-- and the next crash of such a node is again covered: `start` succeeds on the image and yields a reachable
-node (so the argument repeats for ever) -/
+/-- and the next crash of such a node is again covered: `boot` succeeds on the image — with the caches lost, and with
+the caches of any reachable node not above the recorded height — and yields a reachable node (so the argument
+repeats for ever) -/
 theorem C05_next_crash_restarts (g : GoodChain c ch top) {n : FNode} (r : Reach c ch n) (e : Ev) (k : Nat) :
-    ∃ n' ws, Sync.start c (n.store.applyPrefix k (deliver ch n e).2) = some (n', ws) ∧ Reach c ch n' := by
-  obtain ⟨evs, hs⟩ := reach_safe g r
-  obtain ⟨n', ws, a1, _⟩ := crash_restarts g hs e k
-  exact ⟨n', ws, a1, .crash e k r a1⟩
+    (∃ n' ws, Sync.boot c (n.store.applyPrefix k (deliver ch n e).2) = some (n', ws) ∧ Reach c ch n') ∧
+    ∀ n₀, Reach c ch n₀ → n₀.store.height ≤ recHeight c (n.store.applyPrefix k (deliver ch n e).2) →
+      ∃ n' ws, Sync.boot c (n.store.applyPrefix k (deliver ch n e).2) n₀ = some (n', ws) ∧ Reach c ch n' := by
+  obtain ⟨evs, hs, _⟩ := reach_safe g r
+  refine ⟨?_, fun n₀ r₀ hle => ?_⟩
+  · obtain ⟨n', ws, a1, _⟩ := crash_restarts g hs e k
+    exact ⟨n', ws, a1, .crash e k r a1⟩
+  · obtain ⟨evs₀, hs₀, _⟩ := reach_safe g r₀
+    obtain ⟨n', ws, a1, _⟩ := diskOK_boot g (crash_image_ok g hs e k).1 hs₀.caches
+    exact ⟨n', ws, a1, .crashStale e k r r₀ hle a1⟩
 
-/-- **A crash during the restart itself** (between `Sync.start`'s own writes) leaves a consistent image again,
-so it is covered too: starting on it gives a reachable node (`Reach.image`). -/
+/-- **A crash during the restart itself** (between the writes of `Sync.boot`: the local genesis block, the height
+raise, the two watermark raises of `NewManager`, and the writes of the blocks the start of the loop applies from
+stale caches) leaves a consistent image again, so it is covered too: starting on it gives a reachable node. -/
 theorem C05_crash_during_restart (g : GoodChain c ch top) {d : Store} (hd : DiskOK c ch d) :
-    ∃ n ws, Sync.start c d = some (n, ws) ∧ Reach c ch n ∧
+    ∃ n ws, Sync.boot c d = some (n, ws) ∧ Reach c ch n ∧
       ∀ j, DiskOK c ch (d.applyPrefix j ws) ∧
-        ∃ n' ws', Sync.start c (d.applyPrefix j ws) = some (n', ws') ∧ Reach c ch n' := by
-  obtain ⟨n, ws, a1, a2⟩ := start_crash_ok g hd {}
-  refine ⟨n, ws, a1, .image hd a1, fun j => ⟨a2 j, ?_⟩⟩
-  obtain ⟨n', ws', b1, _⟩ := diskOK_start g (a2 j)
-  exact ⟨n', ws', b1, .image (a2 j) b1⟩
+        ∃ n' ws', Sync.boot c (d.applyPrefix j ws) = some (n', ws') ∧ Reach c ch n' := by
+  obtain ⟨n, ws, a1, _, _, _, _, a6⟩ := diskOK_boot g hd (cachesOK_empty false ch)
+  refine ⟨n, ws, a1, .image hd a1, fun j => ⟨a6 j, ?_⟩⟩
+  obtain ⟨n', ws', b1, _⟩ := diskOK_boot_empty g (a6 j)
+  exact ⟨n', ws', b1, .image (a6 j) b1⟩
 
 /-- **Recovery: "after restart it continues syncing and reaches the proposer's chain".**  From any such node,
 for any delivery order of the remaining (or all) headers and data, with duplicates and clean restarts: the
 node applies every block up to any height `h` for which both parts of all blocks above its current height
-were delivered after the restart.  (Convergence needs `DistinctCommitments`, see `Spec.C02`.) -/
+were delivered after the restart.  (Convergence needs `DistinctCommitments` and genuine events, see `Spec.C02`.) -/
 theorem C05_converges_after_crashes (g : GoodChain c ch top) (dc : DistinctCommitments ch) {n : FNode}
     (r : Reach c ch n) (ops : List Op) (h : Nat)
     (hready : ∀ k, n.store.height < k → k ≤ h → Delivered ch (evsOf ops) k) :
@@ -123,30 +180,33 @@ theorem C05_converges_after_crashes (g : GoodChain c ch top) (dc : DistinctCommi
   obtain ⟨evs, hi⟩ := reach_inv g dc r
   exact converges_from g dc hi ops h hready
 
-/-- **Any crash, then everything delivered again: the node holds the whole chain.**  For every run, next event
-and crash point: the node restarted on the image, after any further delivery (any order, duplicates, clean
-restarts) that contains both parts of every block above the recorded height, is alive, has reached `top`, and
-every height from the initial height up to its chain height — in particular the initial height itself — holds
-the proposer's signed block. -/
-theorem C05_recovers_after_any_crash (g : GoodChain c ch top) (dc : DistinctCommitments ch) (ops : List Op) (e : Ev)
-    (k : Nat) (ops' : List Op) :
-    let image := (runOps c ch ops).store.applyPrefix k (deliver ch (runOps c ch ops) e).2
-    ∃ n ws, Sync.start c image = some (n, ws) ∧
-      ((∀ j, recHeight c image < j → j ≤ top → Delivered ch (evsOf ops') j) →
+/-- **Any crash, then everything delivered again: the node holds the whole chain** — whatever generation of the
+cache files it restarted on (`gen = runOps c ch ops₁` for any split `ops₁ ++ ops₂` of the run; `ops₁ = []` is "caches
+lost" up to the empty seen-sets).  For every run, next event and crash point: the node restarted on the image, after
+any further delivery (any order, duplicates, clean restarts) that contains both parts of every block above its
+height, is alive, has reached `top`, and every height from the initial height up to its chain height — in
+particular the initial height itself — holds the proposer's signed block. -/
+theorem C05_recovers_after_any_crash (g : GoodChain c ch top) (dc : DistinctCommitments ch) (ops₁ ops₂ : List Op)
+    (e : Ev) (k : Nat) (ops' : List Op) :
+    let n₀ := runOps c ch (ops₁ ++ ops₂)
+    let image := n₀.store.applyPrefix k (deliver ch n₀ e).2
+    ∃ n ws, Sync.boot c image (runOps c ch ops₁) = some (n, ws) ∧
+      ((∀ j, n.store.height < j → j ≤ top → Delivered ch (evsOf ops') j) →
         (runFrom c ch n ops').alive = true ∧ top ≤ (runFrom c ch n ops').store.height ∧
         ∀ j, c.initialHeight ≤ j → j ≤ (runFrom c ch n ops').store.height →
           ∃ b sb, ch j = some b ∧ (runFrom c ch n ops').store.getBlock j = some sb ∧ sb.sh = b.sh ∧
             sb.savedSig = b.sh.sig ∧ sb.data.txs = b.data.txs) := by
-  intro image
-  obtain ⟨n, ws, a1, _, a3, _, a5⟩ := crash_restarts g (runOps_safe g ops) e k
+  intro n₀ image
+  obtain ⟨_, _, n, ws, a1, _, _, _, _, _, _, _, _, a10⟩ := C05_crash_stale_caches g ops₁ ops₂ e k
+  have hi := a10 dc
   refine ⟨n, ws, a1, fun hall => ?_⟩
-  have hi := runFrom_inv g dc ops' a5
-  refine ⟨hi.safe.alive, converges_from g dc a5 ops' top (fun j x y => hall j (by rw [← a3]; exact x) y), ?_⟩
+  have hi' := runFrom_inv g dc ops' hi
+  refine ⟨hi'.safe.alive, converges_from g dc hi ops' top hall, ?_⟩
   intro j h1 h2
-  obtain ⟨b, sb, x1, x2, x3, x4, x5, _⟩ := hi.safe.chain j h1 h2
+  obtain ⟨b, sb, x1, x2, x3, x4, x5, _⟩ := hi'.safe.chain j h1 h2
   exact ⟨b, sb, x1, x2, x3, x4, x5⟩
 
-/-! ## the witnesses of the repaired defect now recover (kernel-checked) -/
+/-! ## the witnesses of the repaired defects now recover (kernel-checked) -/
 
 theorem witness3_good : GoodChain wC wch3 3 := goodChain_of_check wC _ 3 (by decide) wf_check3
 theorem witness3_distinct : DistinctCommitments wch3 := distinct_of_check 1 3 _ wf_distinct3
@@ -161,7 +221,7 @@ heights 1, 2, 3). -/
 theorem C05_crash_witness_recovers :
     (deliver wch3 wBefore (.hdr 2)).2.length = 3 ∧ wBefore.store.height = 1 ∧
     recHeight wC wImage = 1 ∧ wImage.height = 1 ∧ holdsBlock wch3 wImage 2 = true ∧
-    (Sync.start wC wImage).map (fun p => (p.1.store.height, p.1.lastState.lastHeight)) = some (1, 1) ∧
+    (Sync.boot wC wImage).map (fun p => (p.1.store.height, p.1.lastState.lastHeight)) = some (1, 1) ∧
     wAfter.map (fun n => (n.store.height, n.lastState.lastHeight, holdsChain3 n.store, n.alive)) = some (3, 3, true, true) :=
   wf_crash
 
@@ -170,7 +230,7 @@ second write: block and state written, height not yet): the image records height
 holds block 2; the restarted node reports height 2; after re-delivery it holds the whole chain -/
 theorem C05_crash_witness_state_ahead :
     recHeight wC wImageS = 2 ∧ wImageS.height = 1 ∧ holdsBlock wch3 wImageS 2 = true ∧
-    (Sync.start wC wImageS).map (fun p => (p.1.store.height, p.1.lastState.lastHeight)) = some (2, 2) ∧
+    (Sync.boot wC wImageS).map (fun p => (p.1.store.height, p.1.lastState.lastHeight)) = some (2, 2) ∧
     wAfterS.map (fun n => (n.store.height, n.lastState.lastHeight, holdsChain3 n.store, n.alive)) = some (3, 3, true, true) :=
   wf_crashS
 
@@ -183,10 +243,26 @@ proposer's block 1 is signed, the stored signature is not empty). -/
 theorem C05_crash_witness_initial_height_recovers :
     recHeight wC wImage1 = 0 ∧ holdsBlock wch3 wImage1 1 = true ∧
     (wch3 1).map (·.sh.sig.isEmpty) = some false ∧
-    (Sync.start wC wImage1).map (fun p => (p.1.store.height, p.1.lastState.lastHeight)) = some (0, 0) ∧
+    (Sync.boot wC wImage1).map (fun p => (p.1.store.height, p.1.lastState.lastHeight)) = some (0, 0) ∧
     wAfter1.map (fun n => (n.store.height, n.lastState.lastHeight, holdsChain3 n.store,
       (n.store.getBlock 1).map (·.sh.sig.isEmpty), n.alive)) = some (3, 3, true, some false, true) :=
   wf_crash1
+
+/-- **The witness of the stale-cache defect** (repaired by /repo 1fa5e4f; kernel-checked).  Header 1, header 3 and
+data 3 are delivered; the node is stopped cleanly (cache files: header 3 and data 3 cached and seen) and restarted;
+data 2 and header 2 arrive, blocks 2 and 3 are being applied (6 writes) and the process dies after 4 of them
+(block 3 saved, its state not: recorded height 2).  `NewManager` on that image with the stale cache files gives a
+node at height 2 holding header 3 and data 3 in its caches; **without the start of the loop** every event of the
+chain delivered again is dropped (heights ≤ 2: below the chain height; header 3 and data 3: already seen) and the node
+stays at height 2 — the former behaviour, replayed on the real node by stream C05
+(`C05/after-crash/…/stall/stale-cache-files`); `Sync.boot` applies block 3 at once: height 3 = state height, the
+whole chain held. -/
+theorem C05_stale_cache_witness :
+    (deliver wch3 wStaleBefore (.hdr 2)).2.length = 6 ∧ wGen.store.height = 1 ∧ recHeight wC wStaleImage = 2 ∧
+    (Sync.start wC wStaleImage wGen).map (fun p => (p.1.store.height, (runFrom wC wch3 p.1 wAll).store.height)) = some (2, 2) ∧
+    (Sync.boot wC wStaleImage wGen).map (fun p => (p.1.store.height, p.1.lastState.lastHeight, holdsChain3 p.1.store, p.1.alive))
+      = some (3, 3, true, true) :=
+  wf_stale
 
 /-! ## non-vacuity -/
 
@@ -204,12 +280,20 @@ example (n : FNode) (sh : SHeader) (d : Data) : blockWrites n sh d =
 /-- `C05_crash` is not vacuous and its conclusion not trivial: on the witness chain, at the former bad point
 `k = 1` of a step with three writes, the restarted node exists and reports height 1 although block 2 is already
 on disk; at `k = 2` it reports height 2 while the image's stored height is still 1 -/
-example : (∃ n ws, Sync.start wC ((runOps wC wch3 [.ev (.hdr 1), .ev (.dat 2)]).store.applyPrefix 1
+example : (∃ n ws, Sync.boot wC ((runOps wC wch3 [.ev (.hdr 1), .ev (.dat 2)]).store.applyPrefix 1
       (deliver wch3 (runOps wC wch3 [.ev (.hdr 1), .ev (.dat 2)]) (.hdr 2)).2) = some (n, ws) ∧
       n.lastState.lastHeight = n.store.height ∧ Inv wC wch3 n.store.height [] n) ∧
     recHeight wC wImage = 1 ∧ recHeight wC wImageS = 2 ∧ wImageS.height = 1 := by
-  obtain ⟨_, _, _, n, ws, a1, _, a3, _, _, a6⟩ := C05_crash wC wch3 3 [.ev (.hdr 1), .ev (.dat 2)] (.hdr 2) 1 witness3_good
+  obtain ⟨_, _, _, n, ws, a1, _, _, a3, _, _, a6⟩ := C05_crash wC wch3 3 [.ev (.hdr 1), .ev (.dat 2)] (.hdr 2) 1 witness3_good
   exact ⟨⟨n, ws, a1, a3, a6⟩, wf_crash.2.2.1, wf_crashS.1, wf_crashS.2.1⟩
+
+/-- `C05_crash_stale_caches` is not vacuous: `wGen` is the node after a prefix of a run (`ops₁` ends with the clean
+restart), the crashing node is the node after the whole run -/
+example : wGen = runOps wC wch3 [.ev (.hdr 1), .ev (.hdr 3), .ev (.dat 3), .restart] ∧
+    wStaleBefore = runOps wC wch3 ([.ev (.hdr 1), .ev (.hdr 3), .ev (.dat 3), .restart] ++ [.ev (.dat 2)]) := by
+  refine ⟨rfl, ?_⟩
+  unfold wStaleBefore wGen runOps
+  rw [runFrom_append]
 
 /-- `C05_recovers_after_any_crash` applies to the witness chain (good, distinct commitments) -/
 example : GoodChain wC wch3 3 ∧ DistinctCommitments wch3 := ⟨witness3_good, witness3_distinct⟩
